@@ -1421,15 +1421,26 @@ class Interp:
         if p == "split":
             idx = np.cumsum(P_["sizes"])[:-1]
             return list(np.split(ins[0], idx, axis=P_["axis"]))
+        if p in ("empty", "empty2"):
+            shp = _aval_shape(e.outvars[0].aval)
+            # uninitialised placeholder (unused residual slots of platform-dependent cond branches): floats are poisoned with NaN so
+            # that any arithmetic use fails a definedness obligation instead of silently reading a made-up value
+            z = 0 if np.issubdtype(_aval_dtype(e.outvars[0].aval), np.integer) else float("nan")
+            o = np.empty(shp, dtype=object)
+            o[...] = z
+            return o
         if p == "pad":
             x, pv = ins
             cfg = P_["padding_config"]
-            if not all(i == 0 and lo >= 0 and hi >= 0 for lo, hi, i in cfg):
-                raise Unsupported("pad config")
-            out = np.empty(tuple(lo + s + hi for (lo, hi, _), s in zip(cfg, x.shape)), dtype=object)
+            if not all(i == 0 for lo, hi, i in cfg):
+                raise Unsupported("pad config (interior padding)")
+            # negative low/high padding crops; positive pads with the padding value
+            pos = [(max(lo, 0), max(hi, 0)) for lo, hi, _ in cfg]
+            out = np.empty(tuple(lo + s + hi for (lo, hi), s in zip(pos, x.shape)), dtype=object)
             out[...] = pv[()]
-            out[tuple(slice(lo, lo + s) for (lo, hi, _), s in zip(cfg, x.shape))] = x
-            return out
+            out[tuple(slice(lo, lo + s) for (lo, hi), s in zip(pos, x.shape))] = x
+            crop = tuple(slice(max(-lo, 0), out.shape[d] - max(-hi, 0)) for d, (lo, hi, _) in enumerate(cfg))
+            return out[crop].copy()
         if p == "reduce_sum":
             return self._reduce(ins[0], P_["axes"], add, 0 if np.issubdtype(e.outvars[0].aval.dtype, np.integer) else Fraction(0))
         if p == "reduce_prod":
@@ -1783,7 +1794,7 @@ class Interp:
         ys = []
         order = range(L - 1, -1, -1) if P_["reverse"] else range(L)
         for i in order:
-            xi = [x[i] for x in xs]
+            xi = [x[i] if isinstance(x[i], np.ndarray) else oarr_s(x[i]) for x in xs]
             outs = self.sub(P_["jaxpr"], list(consts) + carry + xi)
             carry = list(outs[:ncar])
             ys.append(outs[ncar:])
